@@ -321,6 +321,51 @@ fn raw_case() -> impl Strategy<Value = RawCase> {
         }),
         // random bytes
         1 => prop::collection::vec(any::<u8>(), 0..200).prop_map(|text| RawCase { text }),
+        // records whose RDATA is given in RFC 3597 generic form: the wire form of a valid
+        // RDATA of a known type, exact or slightly damaged (octets appended / removed /
+        // changed, stated length off by one); the parser must reject or yield valid RDATA
+        4 => (prop::collection::vec((zrec(), 0u8..6, any::<u16>(), any::<u8>(), 0u8..3, any::<bool>()), 1..4)).prop_map(|recs| {
+            let mut text = String::new();
+            for (r, damage, sel, b, len_off, mnemonic) in recs {
+                let mut wire = r.data.wire();
+                match damage {
+                    0 | 1 => {}
+                    2 => wire.extend(std::iter::repeat(b).take(1 + (sel % 3) as usize)),
+                    3 => {
+                        let keep = crate::gen::pick(sel, wire.len() + 1);
+                        wire.truncate(keep);
+                    }
+                    4 => {
+                        if !wire.is_empty() {
+                            let i = crate::gen::pick(sel, wire.len());
+                            wire[i] = b;
+                        }
+                    }
+                    _ => wire.insert(crate::gen::pick(sel, wire.len() + 1), b),
+                }
+                let stated = match len_off {
+                    0 | 1 => wire.len(),
+                    _ => wire.len() + 1,
+                };
+                let t = r.data.rtype();
+                let ty = match (mnemonic, t) {
+                    (true, 1) => "A".to_string(),
+                    (true, 2) => "NS".to_string(),
+                    (true, 5) => "CNAME".to_string(),
+                    (true, 6) => "SOA".to_string(),
+                    (true, 12) => "PTR".to_string(),
+                    (true, 15) => "MX".to_string(),
+                    (true, 16) => "TXT".to_string(),
+                    (true, 33) => "SRV".to_string(),
+                    _ => format!("TYPE{t}"),
+                };
+                let hex: String = wire.iter().map(|x| format!("{x:02x}")).collect();
+                // the hexadecimal data may be split into several words
+                let hex = if hex.len() > 6 && sel % 2 == 0 { format!("{} {}", &hex[..4], &hex[4..]) } else { hex };
+                text.push_str(&format!("{} {} CLASS{} {} \\# {} {}\n", vmodel::zonefile::absolute_name_text(&r.owner), r.ttl, r.class, ty, stated, hex));
+            }
+            RawCase { text: text.into_bytes() }
+        }),
     ]
 }
 
